@@ -166,7 +166,8 @@ def extra(R, tier):
         R.cov["evaluations"] += n
         R.cov["drift"] += x["drift"]
         for s_, w in x["fails"]:
-            R.violation(s_, w)
+            if w["clause"] in TREE_CLAUSES or w["clause"] == "KilledGone":
+                R.violation(s_, w)
         for k, v in x.get("kills", {}).items():
             kills[k] = kills.get(k, 0) + v
     conform.settle_audit(tex + tsim)
